@@ -77,7 +77,7 @@ Fixpoint m_set_one (p a ttl exp : Z) (l : list ment) : list ment :=
       if key_is p a (me x) then
         if 0 <? ttl then
           let e' := mkE p a ttl exp in mkM e' (pa_update_flag e' (mheap x)) :: r
-        else r                                                   (* Delete *)
+        else m_set_one p a ttl exp r                             (* Delete: the key leaves the map *)
       else x :: m_set_one p a ttl exp r
   end.
 
